@@ -521,7 +521,9 @@ def run(ctx):
         "16 embedding contexts x arguments over {a + , : ( ) blank}) whose argument contains at least one of + , : ( ) "
         "blank, compared key by key with the real parseKeymap; rejected cases, arbitrary atom sequences, random bind "
         "strings judged by TLC and real-binary runs are counted separately in coverage")
-    ctx.cov["exhaustive"] = False
+    # thorough enumerates its finite spaces completely (all singles, all ordered pairs of the 277 occurrences in all
+    # placements; all bind forms x contexts x arguments <= 3; all atom sequences <= 4); quick samples the cross-family pairs
+    ctx.cov["exhaustive"] = (not ctx.quick) and only == ""
     if cases:
         ok = [c for c in cases if not c["exp"]["err"] and c["exp"]["cfg"] != default_cfg]
         c = ok[(ctx.seed * 7919) % len(ok)]
@@ -536,8 +538,8 @@ def run(ctx):
         "key/action/number; arbitrary texts (J) are opaque to the spec and only generated where every text has the same "
         "validity (they start with r_, contain no '/', NUL or newline)",
         "complete: singles x 4 placements, same-family pairs x 6 placements, all bind forms/contexts/arguments <= %d, all "
-        "atom sequences <= %d over 14 atoms; cross-family pairs are a seeded 1/%d sample" % (
-            ctx.pick(2, 3), ctx.pick(3, 4), ctx.pick(40, 3)),
+        "atom sequences <= %d over 14 atoms; cross-family pairs: %s" % (
+            ctx.pick(2, 3), ctx.pick(3, 4), ctx.pick("a seeded 1/40 sample", "all")),
         "stdin is not a terminal in every run (the default --scheme depends on it); NO_COLOR unset",
         "error messages are compared only by the source they name (file / $FZF_DEFAULT_OPTS / argv), not by text",
         "'never a crash' for arbitrary bytes is not decidable by a bounded model: every replay and every real-binary "
